@@ -1250,4 +1250,35 @@ pub proof fn lemma_covered_sale(txs: Seq<GbpTransaction>, i: int, e: int, k: int
     isum_mono(k + 1, e, f_sell_t(txs, t));
 }
 
+
+/// pre-pass (C11): shares of lots dated before day d that can still be consumed
+pub open spec fn f_pos_avail_before(d: int) -> spec_fn(AcquisitionLot) -> real { |l: AcquisitionLot| if l.date.d() < d && lot_avail(l) > 0real { lot_avail(l) } else { 0real } }
+pub open spec fn rmin(a: real, b: real) -> real { if a <= b { a } else { b } }
+
+
+/// a Same Day match of q shares adds exactly q to the consumed total, and leaves the lots of earlier days as they were
+pub proof fn lemma_sameday_consumed(l0: Seq<AcquisitionLot>, l1: Seq<AcquisitionLot>, d: int, q: real, a: real)
+    requires wf_lots(l0), l1.len() == l0.len(), a == avail_on(l0, d), a > 0real, 0real < q <= a,
+        forall|k: int| 0 <= k < l0.len() ==> lot_same_but_consumed(#[trigger] l1[k], l0[k])
+            && l1[k].consumed.v() == l0[k].consumed.v() + (if lot_matching(l0[k], d) { lot_avail(l0[k]) * (q / a) } else { 0real }),
+    ensures rsum(l1, f_consumed()) == rsum(l0, f_consumed()) + q, rsum(l1, f_pos_avail_before(d)) == rsum(l0, f_pos_avail_before(d))
+{
+    let r = q / a;
+    let dl = |l: AcquisitionLot| r * f_pos_avail_on(d)(l);
+    assert forall|k: int| 0 <= k < l0.len() implies f_consumed()(l1[k]) == f_consumed()(#[trigger] l0[k]) + dl(l0[k]) by {
+        let x = l0[k];
+        if lot_matching(x, d) { assert(lot_avail(x) * r == r * lot_avail(x)) by(nonlinear_arith); }
+        else { assert(f_pos_avail_on(d)(x) == 0real); assert(r * 0real == 0real) by(nonlinear_arith); }
+    }
+    rsum_ext_add(l0, l1, f_consumed(), f_consumed(), dl);
+    rsum_scale(l0, f_pos_avail_on(d), dl, r);
+    lemma_pos_avail_eq(l0, d);
+    assert((q / a) * a == q) by(nonlinear_arith) requires a > 0real;
+    assert forall|k: int| 0 <= k < l0.len() implies f_pos_avail_before(d)(#[trigger] l1[k]) == f_pos_avail_before(d)(l0[k]) by {
+        assert(lot_same_but_consumed(l1[k], l0[k]));
+        if l0[k].date.d() < d { assert(!lot_matching(l0[k], d)); }
+    }
+    rsum_ext(l1, l0, f_pos_avail_before(d), f_pos_avail_before(d));
+}
+
 } // verus!
